@@ -1769,3 +1769,116 @@ Theorem disjoint_static T B sz0 sched :
   (forall t e, get_pc st t = TDone (OPanic e) -> e = PTooBig \/ e = PLimit64) /\
   cidx (compIdx st) < 64 /\ length (chunks st) = nbuf.
 Proof. intros Hs HB Hf. apply disjoint_all_schedules. now apply (static_nocarry T B). Qed.
+
+(* ------------------------------------------------------------------------------------------------ *)
+(* single goroutine: every call returns (no hang), in at most 7 actions per chunk                     *)
+(* ------------------------------------------------------------------------------------------------ *)
+Definition pc_rank (p : apc) : nat :=
+  match p with
+  | TReq _ => 6 | TAdded _ _ => 5 | TWantLock _ _ => 4 | TLocked _ _ => 3 | TGrow _ _ => 2
+  | TGrown _ _ => 1 | TFits _ _ _ => 1 | TUnlocking _ => 7 | _ => 0
+  end%nat.
+Definition rank (st : astate) : nat := (8 * (64 - N.to_nat (cur st)) + pc_rank (get_pc st 0))%nat.
+
+Definition is_done (p : apc) : Prop := exists o, p = TDone o.
+
+Lemma seq_rank_step st : SeqX st -> pc_returned (get_pc st 0) = false ->
+  exists st', thread_step st 0 = Some st' /\ (is_done (get_pc st' 0) \/ (rank st' < rank st)%nat).
+Proof.
+  intros HX Hr.
+  pose proof (sx_inv _ HX) as HI. pose proof (sx_one _ HX) as H1.
+  pose proof (sx_pc _ HX) as Hp. pose proof (inv_pcs _ HI 0%nat) as Hk. pose proof (inv_cur _ HI) as Hcur.
+  assert (H0 : (0 < length (threads st))%nat) by lia.
+  unfold thread_step, rank. destruct (get_pc st 0) eqn:E; try discriminate; cbn [seq_pc pc_ok] in Hp, Hk.
+  - (* TReq *)
+    pose proof (seqx_nocarry st sz HX E) as Hnc.
+    destruct (faa_nocarry (compIdx st) sz Hcur Hnc) as (Ea & Ec & Ep).
+    eexists; split; [reflexivity|]. right. rewrite get_set_same by (sstate; auto).
+    unfold cur; sstate. rewrite Ea, Ec. cbn [pc_rank]. lia.
+  - (* TAdded *)
+    destruct Hp as (-> & _ & _). rewrite (lenN_chunks _ HI).
+    destruct (N.leb_spec 64 (cidx (compIdx st))); [unfold cur in Hcur; lia|].
+    destruct (chunk_len (chunks st) (cidx (compIdx st)) <? cpos (compIdx st));
+      (eexists; split; [reflexivity|]); right; rewrite get_set_same by auto; cbn [pc_rank];
+      change (cur (set_pc st 0 _)) with (cur st); lia.
+  - (* TFits *)
+    destruct (p <? sz); (eexists; split; [reflexivity|]); left; rewrite get_set_same by (sstate; auto); eexists; reflexivity.
+  - (* TWantLock *)
+    destruct Hp as (_ & HL). rewrite HL. eexists; split; [reflexivity|]. right.
+    rewrite get_set_same by (sstate; auto). cbn [pc_rank]. change (cur (set_pc (set_lock st (Some 0%nat)) 0 _)) with (cur st). lia.
+  - (* TLocked *)
+    subst b. unfold cur. rewrite N.eqb_refl. eexists; split; [reflexivity|]. right. rewrite get_set_same by auto.
+    cbn [pc_rank]. change (cidx (compIdx (set_pc st 0 _))) with (cidx (compIdx st)). lia.
+  - (* TGrow *)
+    destruct Hk as (Hs & _).
+    pose proof (add_buffer_at_spec (chunks st) (b + 1) sz (inv_len _ HI) (proj2 Hs)) as Hab.
+    destruct (add_buffer_at (chunks st) (b + 1) sz) as [| |cs]; [|contradiction|]; (eexists; split; [reflexivity|]).
+    + left. rewrite get_set_same by auto. eexists; reflexivity.
+    + right. rewrite get_set_same by (sstate; auto). cbn [pc_rank]. change (cur (set_pc (set_chunks st cs) 0 _)) with (cur st). lia.
+  - (* TGrown *)
+    destruct Hk as (_ & Hb & Hb1). destruct (store_next b Hb1) as (Ec & Ep).
+    eexists; split; [reflexivity|]. right. rewrite get_set_same by (sstate; auto). cbn [pc_rank].
+    unfold cur in *; sstate. rewrite Ec. lia.
+  - (* TUnlocking: the Store has already moved to the next chunk; the retry starts with rank 6 there *)
+    eexists; split; [reflexivity|]. right. rewrite get_set_same by (sstate; auto). cbn [pc_rank].
+    change (cur (set_pc (set_lock st None) 0 _)) with (cur st). lia.
+Qed.
+
+Lemma run_thread_mono f : forall st t st' o f', run_thread f st t = (st', Some o) -> (f <= f')%nat ->
+  run_thread f' st t = (st', Some o).
+Proof.
+  induction f as [|f IH]; intros st t st' o f' H Hle; destruct (pc_done_dec (get_pc st t)) as [(o' & E)|E].
+  - rewrite (run_thread_done 0 _ _ _ E) in H. rewrite (run_thread_done f' _ _ _ E). exact H.
+  - rewrite run_thread_zero in H by auto. discriminate.
+  - rewrite (run_thread_done (S f) _ _ _ E) in H. rewrite (run_thread_done f' _ _ _ E). exact H.
+  - destruct f' as [|f']; [lia|]. rewrite run_thread_unfold in * by auto.
+    destruct (thread_step st t); [|discriminate]. apply IH; [exact H|lia].
+Qed.
+
+Lemma seq_run_progress fuel : forall st, SeqX st -> get_pc st 0 <> TIdle -> (rank st < fuel)%nat ->
+  exists st' o, run_thread fuel st 0 = (st', Some o).
+Proof.
+  induction fuel as [|f IH]; intros st HX Hni Hr; [lia|].
+  destruct (pc_done_dec (get_pc st 0)) as [(o' & E)|E].
+  - rewrite (run_thread_done _ _ _ _ E). eauto.
+  - rewrite run_thread_unfold by auto.
+    assert (Hret : pc_returned (get_pc st 0) = false).
+    { destruct (get_pc st 0) eqn:E0; try reflexivity; [congruence|exfalso; eapply E; eauto]. }
+    destruct (seq_rank_step st HX Hret) as (st1 & Es & Hd). rewrite Es.
+    destruct (seqx_step st st1 HX Es) as (HX1 & _).
+    destruct Hd as [(o1 & E1)|Hlt].
+    + rewrite (run_thread_done _ _ _ _ E1). eauto.
+    + apply IH; auto; [|lia].
+      (* a step never goes back to Idle *)
+      unfold thread_step in Es. intros Ei.
+      destruct (get_pc st 0); try discriminate;
+        repeat match type of Es with
+               | (if ?c then _ else _) = _ => destruct c
+               | match add_buffer_at ?a ?b ?c with _ => _ end = _ => destruct (add_buffer_at a b c)
+               end; try discriminate; inversion Es; subst st1;
+        rewrite get_set_same in Ei by (sstate; rewrite (sx_one _ HX); lia); discriminate.
+Qed.
+
+(* a call of a single goroutine always returns: with a range, nil, or one of the two documented panics *)
+Theorem seq_progress st sz : SeqQ st -> exists st' o, alloc_seq st 0 sz = (st', Some o).
+Proof.
+  intros HQ. rewrite (alloc_seq_unfold st sz HQ). pose proof (seqq_start st sz HQ) as HX.
+  apply seq_run_progress; auto.
+  - destruct HQ as (HX0 & _). rewrite get_set_same by (rewrite (sx_one _ HX0); lia).
+    unfold start_pc. destruct (max_alloc <? sz); [discriminate|]. destruct (sz =? 0); discriminate.
+  - unfold rank, seq_fuel. pose proof (inv_cur _ (sx_inv _ HX)).
+    assert (pc_rank (get_pc (set_pc st 0 (start_pc sz)) 0) <= 7)%nat by (destruct (get_pc _ 0); cbn; lia).
+    lia.
+Qed.
+
+
+Theorem seq_progress_good st sz : SeqQ st ->
+  exists st' o, alloc_seq st 0 sz = (st', Some o) /\ (good (Some o) \/ o = OPanic PLimit64).
+Proof.
+  intros HQ. destruct (seq_progress st sz HQ) as (st' & o & H). exists st', o. split; [exact H|].
+  rewrite (alloc_seq_unfold st sz HQ) in H.
+  destruct (run_thread_future _ _ _ _ (seqq_start st sz HQ) H) as (HX' & _).
+  pose proof (run_thread_result _ _ _ _ _ H) as E.
+  pose proof (inv_pcs _ (sx_inv _ HX') 0%nat) as Hp. rewrite E in Hp.
+  destruct o as [| |e]; cbn [good pc_ok] in *; auto. destruct Hp as [->| ->]; auto.
+Qed.
